@@ -78,6 +78,24 @@ func runC01(c *ev.Ctx) {
 				Specs: []Spec{{"overlap", 2}, {"overlap", 3}, {"mono", 0}, {"apen", 2}}})
 		}
 	}
+	// every block count N = 1..1200 (degrees of freedom of the chi-square: thresholds inside the
+	// incomplete-gamma code are properties of single shapes) and every block length m = 2..400
+	for N := 1; N <= 1200; N++ {
+		m := []int{8, 10, 3}[N%3]
+		n := m*N + N%m
+		if n < 100 {
+			n = 100 + N
+			m = n / N
+			if m < 2 {
+				continue
+			}
+		}
+		works = append(works, seqWork{Seq: gen.Seq{Fam: []string{"uniform", "slight"}[N%2], N: n, Seed: gen.Mix(seed, 11, uint64(N))}, Specs: []Spec{{"block", m}}})
+	}
+	for m := 2; m <= 400; m++ {
+		works = append(works, seqWork{Seq: gen.Seq{Fam: "slight", N: 2000 + m, Seed: gen.Mix(seed, 12, uint64(m))}, Specs: []Spec{{"block", m}}})
+	}
+	c.Count("block_counts_and_block_lengths_enumerated", 1200+399)
 	runSeqWorks(c, works)
 
 	// very many blocks (explicit small block length on a long sequence): a = N/2 up to 10^7.
